@@ -183,7 +183,7 @@ def main():
     cpath = os.path.join(sc, "cases.ndjson")
     vlib.write_ndjson(cpath, cases)
     frac = 0.08 if thorough else 0.25
-    total = dict(cases=0, renders=0, drift=0, hook_calls=0, trace_events=0, programs=0)
+    total = dict(cases=0, renders=0, drift=0, doc_drift_programs=0, hook_calls=0, trace_events=0, programs=0)
     kinds = {}
     traces = []
 
@@ -228,17 +228,21 @@ def main():
     ck.set("fault_plan_kinds", kinds)
     if total["drift"]:
         ck.set("model_drift_cases", total["drift"])
+        ck.set("programs_whose_document_differs_from_the_model", total["doc_drift_programs"])
 
-    # binding self-test: a corrupted expectation must be reported by the harness
-    victim = next(c for c in cases if c["cap"] == caps[0] and len(c["doc"]) >= 2 and len(c["runs"]) == 1)
-    bad = json.loads(json.dumps(victim))
-    bad["doc"] = bad["doc"][:-1] + ["#"]
-    bpath = os.path.join(sc, "selftest.ndjson")
-    vlib.write_ndjson(bpath, [bad])
-    p = vlib.run([binp, "cases", bpath, str(caps[0]), "1", os.path.join(sc, "selftest-ev.ndjson"), "0"], check=False)
-    if b'"kind":"fail"' not in p.stdout:
-        raise vlib.InfraError("binding self-test: a corrupted expected document was not reported by the harness")
-    ck.set("binding_selftest", "corrupted expected document reported")
+    # binding self-test: corrupted expectations must be reported by the harness
+    # (a wrong evaluation count as a violation, a wrong document / sink as model drift)
+    victim = next(c for c in cases if c["cap"] == caps[0] and len(c["runs"]) == 1 and c["runs"][0]["evals"] >= 1
+                  and c["runs"][0]["res"] == "nil")
+    bad1 = json.loads(json.dumps(victim)); bad1["runs"][0]["evals"] = 0
+    bad2 = json.loads(json.dumps(victim)); bad2["runs"][0]["sink"] = bad2["runs"][0]["sink"][:-1]
+    for bad, kind in ((bad1, b'"kind":"fail"'), (bad2, b'"kind":"drift"')):
+        bpath = os.path.join(sc, "selftest.ndjson")
+        vlib.write_ndjson(bpath, [bad])
+        p = vlib.run([binp, "cases", bpath, str(caps[0]), "1", os.path.join(sc, "selftest-ev.ndjson"), "0"], check=False)
+        if kind not in p.stdout:
+            raise vlib.InfraError("binding self-test: a corrupted expectation was not reported by the harness (%s)" % kind.decode())
+    ck.set("binding_selftest", "corrupted evaluation count reported as violation, corrupted sink as drift")
 
     # ---- VAL: pool hook events against the pool protocol -----------------------------------------
     lines = []
